@@ -39,6 +39,7 @@ inductive V where
   | bytes (b : Bytes)
   | arr (xs : List V)
   | map (kvs : List (V × V))
+  | tagged (t : Nat) (v : V)      -- decode-tree level only (cbor semantic tag): `torepr` of it is the tree, not a value
 deriving Repr, Inhabited
 
 /-! ### readers -/
@@ -217,6 +218,7 @@ def torepr : V → Res V
     match toreprKV kvs with
     | .ok es => .ok (.map (lastWins es))
     | .err e => .err e
+  | .tagged _ _ => .err .unmodelled             -- `.value | tovalue` of a tagged item is the decode tree as JSON
   | v => .ok v                                   -- `.value | tovalue`
 def toreprL : List V → Res (List V)
   | [] => .ok []
@@ -316,6 +318,7 @@ def veq : V → V → Bool
   | .bytes a, .bytes b => a == b
   | .arr xs, .arr ys => veqL xs ys
   | .map xs, .map ys => veqKV xs ys
+  | .tagged a x, .tagged b y => a == b && veq x y
   | _, _ => false
 def veqL : List V → List V → Bool
   | [], [] => true
